@@ -187,7 +187,8 @@ func readerMain(args []string) {
 		case 4:
 			return tokPattern(4095+r.intn(3), r.intn(256))
 		case 5:
-			if *tier == "thorough" || r.intn(6) == 0 {
+			// a 65-70 KiB bulk costs the byte-level model reader about 0.65 s: one in six at the quick tier, one in three at the thorough tier
+			if (*tier == "thorough" && r.intn(3) == 0) || (*tier != "thorough" && r.intn(6) == 0) {
 				return tokPattern(65536+r.intn(5000), r.intn(256))
 			}
 			return tokPattern(300, 1)
